@@ -20,6 +20,7 @@ use sync42::wait_list::WaitList;
 
 mod memtable;
 
+use crate::tree::VersionCursor;
 use crate::{
     LOG_FILE, LsmTree, LsmtkOptions, MANI_ROOT, SError, SST_FILE, TEMP_FILE, TEMP_ROOT, TRASH_ROOT,
     corruption, ensure_dir, logic_error, make_all_dirs, parse_log_file,
@@ -462,7 +463,7 @@ impl KeyValueStore {
         let cursor = MergingCursor::new(cursors)?;
         let cursor = PruningCursor::new(cursor, timestamp)?;
         let cursor = BoundsCursor::new(cursor, start_bound, end_bound)?;
-        Ok(cursor)
+        Ok(VersionCursor::new(version, cursor))
     }
 }
 
